@@ -1,0 +1,46 @@
+// Copyright 2025 CloudWeGo Authors
+//
+// Licensed under the Apache License, Version 2.0 (the "License");
+// you may not use this file except in compliance with the License.
+// You may obtain a copy of the License at
+//
+//	http://www.apache.org/licenses/LICENSE-2.0
+//
+// Unless required by applicable law or agreed to in writing, software
+// distributed under the License is distributed on an "AS IS" BASIS,
+// WITHOUT WARRANTIES OR CONDITIONS OF ANY KIND, either express or implied.
+// See the License for the specific language governing permissions and
+// limitations under the License.
+package mux
+
+// Names of the verification hook points of ShardQueue (see verif_hooks_on.go).
+const (
+	vpNone = iota
+	vpAddAfterAppend
+	vpTriggeringAfterList
+	vpTriggeringAfterCount
+	vpForeachEnter
+	vpWorkerStart
+	vpWorkerAfterSwap
+	vpWorkerAfterDeal
+	vpWorkerAfterFlush
+	vpWorkerAfterRunNum
+	vpWorkerExit
+	vpClosePoll
+	vpCount
+)
+
+var verifPointNames = [...]string{
+	vpNone:                 "none",
+	vpAddAfterAppend:       "AddAfterAppend",
+	vpTriggeringAfterList:  "TriggeringAfterList",
+	vpTriggeringAfterCount: "TriggeringAfterCount",
+	vpForeachEnter:         "ForeachEnter",
+	vpWorkerStart:          "WorkerStart",
+	vpWorkerAfterSwap:      "WorkerAfterSwap",
+	vpWorkerAfterDeal:      "WorkerAfterDeal",
+	vpWorkerAfterFlush:     "WorkerAfterFlush",
+	vpWorkerAfterRunNum:    "WorkerAfterRunNum",
+	vpWorkerExit:           "WorkerExit",
+	vpClosePoll:            "ClosePoll",
+}
